@@ -981,6 +981,25 @@ pub fn dispatch(f: &str, copy: &str, a: &[Arg]) -> Option<Vec<Out>> {
             cd::fips202::shake256(&mut o, n, inp, inlen);
             Some(vec![obytes(&o)])
         }
+        // montgomery_reduce over the contiguous i64 window [lo, hi) with the property's predicate evaluated on every input:
+        // r*2^32 = a (mod q) and -q < r < q; returns (inputs, panics, violations, first violating input or 0)
+        "mont_sweep" => {
+            const Q: i128 = 8380417;
+            let lo = i64::try_from(int(&a[0])).ok()?; let hi = i64::try_from(int(&a[1])).ok()?;
+            let mut pan = 0i64; let mut bad = 0i64; let mut first: i128 = 0;
+            let mut x = lo;
+            while x < hi {
+                match std::panic::catch_unwind(|| cd::reduce::montgomery_reduce(x)) {
+                    Ok(r) => {
+                        let r = r as i128;
+                        if !((r * 4294967296 - x as i128).rem_euclid(Q) == 0 && -Q < r && r < Q) { bad += 1; if first == 0 { first = x as i128; } }
+                    }
+                    Err(_) => { pan += 1; if first == 0 { first = x as i128; } }
+                }
+                x += 1;
+            }
+            Some(vec![oint((hi - lo) as i128), oint(pan), oint(bad), oint(first)])
+        }
         "sweep" => {
             let id = ints(&a[0])[0];
             sweep(id, _copy_for_sweep(copy), int(&a[1]) as i64, int(&a[2]) as i64, int(&a[3]) as i64)
